@@ -90,6 +90,7 @@ def make_scenarios(rng, tier, seed):
     nr = np_rng(PID, seed, 'data')
     big = tier == 'thorough'
     out = []
+    n_long = 0
     for s in range(160 if big else 36):
         nch = rng.choice([2, 3, 4, 4, 5, 5])
         NFFT = rng.choice([8, 16, 16, 32, 64, 7, 15, 33] if not big else [8, 16, 32, 64, 64, 128, 7, 15, 33, 63])
@@ -106,10 +107,21 @@ def make_scenarios(rng, tier, seed):
             NFFT = 64
         r_ = rng.random()
         nov = None if r_ < 0.3 else (0 if r_ < 0.42 else rng.randrange(0, NFFT))     # explicit 0 is a value, not "unset"
-        if n > 256:      # keep the number of segments of long records near 60 (the model's DFT is the naive one)
-            min_step = min(NFFT, (n - NFFT) // 60 + 1)
-            if nov is not None and NFFT - nov < min_step:
-                nov = NFFT - min_step
+        if n > 256:
+            # long records are expensive for the model (naive DFT over linked lists): a bounded number of them per
+            # run, few channels, and about 30 segments
+            n_long += 1
+            if n_long > 6:
+                n = rng.choice([128, 200, 256])
+            else:
+                if n >= 2048:
+                    n, nch = (2048, 2) if n_long == 1 else (1024, nch)
+                nch = min(nch, 3)
+                if nov is None:
+                    nov = NFFT // 2
+                min_step = min(NFFT, (n - NFFT) // 30 + 1)
+                if NFFT - nov < min_step:
+                    nov = NFFT - min_step
         wk = rng.choice(['hann', 'hann', 'hamming', 'rand'])
         Fs = rng.choice([1.0, 2.0, 2 * math.pi, 10.0, 250.0, rng.uniform(0.1, 100)])
         # band: full, or off-grid edges
